@@ -341,3 +341,48 @@ reg("C33", "exploration",
     "native harness repeats threaded compiles under TSan and ASan and compares digests.",
     "Collision meshes (qhull) and file-based assets are out of reach in this build; TSan sees the interleavings that occurred.",
     "twin-compilation bitwise oracle with allocator fill patterns + TSan/ASan-hosted threaded compiles")
+
+reg("C31", "fault_enumeration",
+    "(1) Round trip: mj_saveModel into a buffer of exactly mj_sizeModel bytes and into a file, reload, and compare every size, "
+    "every array (X-macro field table), mjOption, mjVisual and mjStatistic byte for byte; second-generation image identical; a "
+    "buffer one byte short must fail cleanly. (2) Crash points: the image is truncated at EVERY length for images up to 9 kB "
+    "(60 kB thorough) and at a stride plus every length around the header for larger ones. (3) Corruption: 4-byte words of the "
+    "header/size/option region and sampled entries of every int array that can be located in the image are overwritten with "
+    "{0, -1, INT_MAX, INT_MIN, value+-1, max+1, 2^20}; random multi-byte corruptions. Each mutated image must be rejected with a "
+    "NULL result or yield a model that passes an independent cross-reference validator written from the mjmodel.h comments "
+    "(vf/ref/model_refs.py); an ASan subsample uses exact-size heap copies so reads beyond the truncated length are reported.",
+    "The verdict stops at in-bounds references (the statement does not promise that a semantically inconsistent image can be "
+    "simulated). The loader's own validator has many gaps: each array it fails to validate is an explicit open known finding "
+    "(calibrated list), so a newly unvalidated array is still reported. libFuzzer is not used.",
+    "fault enumeration (truncation at every length, field corruption) with an independent reference validator + ASan")
+
+reg("C09", "exploration",
+    "Twin-data forward/inverse comparison: forward dynamics on d1 with tolerance 0 and many iterations, convergence decided by the "
+    "harness itself (|M a - qfrc_smooth - qfrc_constraint| below 1e-9 of the summed magnitudes); a fresh d2 gets the integration "
+    "state and qacc, mj_inverse runs, and qfrc_inverse is compared with qfrc_applied + qfrc_actuator + sum J_b' xfrc_applied (J_b "
+    "from the independent kinematics model), efc_force/qfrc_constraint with the forward ones; mj_compareFwdInv must stay below "
+    "tolerance; with mjENBL_INVDISCRETE the same comparison uses (v+ - v)/h from real Euler/implicit steps. Scenes mix "
+    "equalities, dof and tendon frictionloss, limits and contacts of every condim in both cones.",
+    "Non-converged cases are skipped and counted; near-hard constraints are skipped (documented: the inverse is undefined as R->0); "
+    "noslip off, RK4 excluded from the discrete part. One open known finding (discrete inverse reads stale actuator_force).",
+    "twin execution with a harness-decided convergence precondition + reference-model Jacobian term")
+
+reg("C11", "exploration",
+    "A runtime monitor over forward solves across all solvers, both cones, noslip on/off and deliberately unconverged iteration "
+    "budgets: a row classifier written from the documentation (cross-checked with ne/nf/nl, contact.efc_address and block lengths) "
+    "decides the admissible set of every block (frictionloss box, non-negative limits / frictionless / pyramid edges, elliptic cone "
+    "with friction-weighted tangential norm bounded by the normal force); qfrc_constraint is recomputed as J' efc_force from the "
+    "arena Jacobian (CSR or dense) and mj_contactForce is compared with an independent decoding of efc_force.",
+    "Equality rows are sign-free; mj_contactForce reports the net interface force (adhesion subtracted); flex models skipped. One "
+    "open known finding (mju_QCQP returns 'unconstrained' with a point far outside the ellipsoid after noslip).",
+    "reference-model runtime monitoring over randomised solver configurations")
+
+reg("C28", "exploration",
+    "After mj_forward every sensordata slice is compared with an independent numpy model built on vf/ref/rbd.py: frame "
+    "pos/quat/axes/linvel/angvel in any reference frame, accelerations from J qacc + Jdot qvel, gyro, velocimeter, accelerometer, "
+    "magnetometer, subtree COM/linvel/angmom, energies, limit distances, force/torque from Newton-Euler over the child subtree, touch "
+    "and rangefinder through the ray reference, and the 'copied from mjData.X' sensors; cutoff semantics per datatype; slice "
+    "isolation by canary-filled sensordata with all sensors but one disabled and by single-sensor recompiled twins (bitwise).",
+    "Sensors with nsample/interval/delay, plugin/user/contact/tactile sensors are left out; quaternions compared up to sign; grazing "
+    "rays accepted within the displaced-ray interval. Two open known findings (static-body acceleration drops gravity; weld torque in cfrc_ext).",
+    "reference-model oracle + canary/twin executions")
